@@ -58,6 +58,7 @@ def run(ck):
     text_agreement(ck)
     ast_agreement(ck)
     consumer_defines(ck)
+    includable_twice(ck)
 
 
 def text_agreement(ck):
@@ -287,3 +288,31 @@ def consumer_defines(ck):
     ck.extra_coverage["auto_string_concatenations"] = {"examined": n, "notes": notes}
     if not bad:
         ck.ob("C20-O4", "src/qtlogger", True, "%d `auto` variables initialised by a string concatenation: none has a non-QString temporary operand" % n, key="auto-stringbuilder|none")
+
+
+def includable_twice(ck):
+    """users copy qtlogger.h into a project and include it wherever they log: every definition in it must be allowed to appear in
+    several translation units (inline / template / in-class / internal linkage), as QTLOGGER_DECL_SPEC = inline makes it for the sources"""
+    ho = ck.configs.get("headeronly")
+    ck.rule("C20-O5", "every function and variable the single header defines at namespace scope with external linkage is inline or a template (the generator turns QTLOGGER_DECL_SPEC into `inline`; a definition "
+                      "without the macro is an ordinary function in the header and the second translation unit that includes it fails to link)")
+    root_hdr = [f for f in ho.fns.values() if f.body is not None and (f.file or "").endswith("/qtlogger.h") and not (f.file or "").endswith("/src/qtlogger/qtlogger.h")]
+    if len(root_hdr) < 250:
+        raise AnalysisBroken("only %d function definitions found in qtlogger.h" % len(root_hdr))
+    bad = 0
+    for f in sorted(root_hdr, key=lambda f: (f.line, f.sig)):
+        if f.lambda_of or f.d.get("implicit") or f.d.get("templated") or f.d.get("inline") or not f.d.get("extern"):
+            continue
+        bad += 1
+        ck.ob("C20-O5", "%s (%s)" % (f.loc(), f.sig), False, "defined in the single header as an ordinary (non-inline) function with external linkage: a program that includes qtlogger.h in two "
+              "translation units gets 'multiple definition of %s' from the linker; the source definition lacks QTLOGGER_DECL_SPEC" % f.name, key="not-inline|%s" % f.sig)
+    for gv in sorted(ho.globals.values(), key=lambda g: (g["file"], g["line"])):
+        if not gv["file"].endswith("/qtlogger.h") or gv["file"].endswith("/src/qtlogger/qtlogger.h") or gv.get("staticlocal") or gv.get("templated") or gv.get("inline") or not gv.get("extern"):
+            continue
+        if gv.get("const") and not gv.get("staticmember"):
+            continue      # namespace-scope const objects have internal linkage
+        bad += 1
+        ck.ob("C20-O5", "%s:%d (%s)" % (gv["file"].split("/")[-1], gv["line"], gv["name"]), False, "variable with external linkage defined (not inline) in the single header: multiple definition in the second translation unit",
+              key="not-inline-var|%s" % gv["name"])
+    if not bad:
+        ck.ob("C20-O5", "qtlogger.h", True, "%d function definitions and the namespace-scope variables of the single header: all inline, templates, in-class or with internal linkage" % len(root_hdr), key="not-inline|none")
